@@ -269,7 +269,13 @@ struct Th {
     cv: Arc<Condvar>,
     prio: i64,
     wake_timed_out: bool,
+    /// Consecutive scheduling decisions at which this thread could have run
+    /// (not merely by a time-out firing) and was passed over.
+    starved: u64,
 }
+
+/// See `switch`: bound on how long an enabled thread is passed over under a fair strategy.
+const FAIR_WINDOW: u64 = 3000;
 
 #[derive(Clone, Copy, Debug, PartialEq, Eq)]
 pub enum Abort {
@@ -377,6 +383,7 @@ impl Sched {
                 cv: Arc::new(Condvar::new()),
                 prio,
                 wake_timed_out: false,
+                starved: 0,
             });
             g.current = 0;
         }
@@ -625,8 +632,39 @@ impl Sched {
                     .collect()
             }
         };
-        let idx = g.src.as_mut().map(|s| s.weighted(&weights)).unwrap_or(0);
+        // Bounded fairness for the strategies the liveness oracles call fair:
+        // a thread that could have run at each of the last FAIR_WINDOW
+        // decisions is picked now, whatever the choice list says. (Record-mode
+        // draws are fair with probability ~1 anyway; an edited or exhausted
+        // choice list - minimisation, hand-written replays - is not.)
+        let forced = if g.cfg.strategy != Strategy::Pct {
+            cands
+                .iter()
+                .enumerate()
+                .filter(|(_, c)| c.1 != CandKind::Timeout && g.threads[c.0].starved > FAIR_WINDOW)
+                .max_by_key(|(_, c)| (g.threads[c.0].starved, std::cmp::Reverse(c.0)))
+                .map(|(i, _)| i)
+        } else {
+            None
+        };
+        let idx = match forced {
+            Some(i) => {
+                g.count("fairness_forced");
+                i
+            }
+            None => g.src.as_mut().map(|s| s.weighted(&weights)).unwrap_or(0),
+        };
         let (chosen, kind) = cands[idx.min(cands.len() - 1)];
+        {
+            let passed: Vec<usize> = cands.iter().filter(|c| c.1 != CandKind::Timeout && c.0 != chosen).map(|c| c.0).collect();
+            for (tid, t) in g.threads.iter_mut().enumerate() {
+                if passed.contains(&tid) {
+                    t.starved += 1;
+                } else {
+                    t.starved = 0;
+                }
+            }
+        }
         // Apply the transition of the chosen thread.
         let prev = std::mem::replace(&mut g.threads[chosen].state, St::Runnable);
         match (&prev, kind) {
@@ -844,6 +882,7 @@ impl Runtime for Sched {
             cv: Arc::new(Condvar::new()),
             prio,
             wake_timed_out: false,
+            starved: 0,
         });
         let tid = g.threads.len() - 1;
         Ok(tid)
